@@ -465,7 +465,7 @@ def check_C01(ctx):
 def check_C02(ctx):
     nd, ni = sizes(ctx, (120, 22), (1200, 40))
     lexer_check(ctx, dict(p_ctx=0.0, p_named=0.0, max_rules=2, max_depth=4, p_builtin=0.1, p_diff=0.12, p_any=0.12,
-                          p_eoi=0.05, kinds=['simple']), nd, ni, ["tokens"])
+                          p_eoi=0.05, p_template=0.0, kinds=['simple']), nd, ni, ["tokens"])
 
 
 def check_C03(ctx):
